@@ -365,6 +365,7 @@ var Mutants = map[string][]Mutant{
 		{"Text.Heights uses the first line's top", "text.go", `\t_, ascent, _, _ := firstLine\.Heights\(t\.WritingMode\)`, "\tascent, _, _, _ := firstLine.Heights(t.WritingMode)", "E3.line-heights"},
 	},
 	"C17": {
+		{"node dropped at a penalty because of the penalty's own width", "text/linebreak.go", `tooLong = lb\.width < \(lb\.W-active\.W\)-\(lb\.Z-active\.Z\)`, "tooLong = true", "E4.deactivation-without-penalty-width"},
 		{"line width computed at node creation", "text/linebreak.go", `(Fitness:  c,\n\t+)Width:    width,\n`, "${1}Width:    width - A[c].W,\n", "E11.break-width"},
 		{"start node taken for a flagged break", "text/linebreak.go", `if 0 < active\.Line && lb\.items\[active\.Position\]\.Flagged && item\.Flagged \{`, "if lb.items[active.Position].Flagged && item.Flagged {", "E4.flagged-pair-real-break"},
 		{"InsertBefore links the old head one way", "text/linebreak.go", `(\t\tat\.prev\.next = b\n)\t\}\n\tat\.prev = b\n`, "${1}\t\tat.prev = b\n\t}\n", "E4.list-links"},
@@ -376,7 +377,7 @@ var Mutants = map[string][]Mutant{
 		{"inactive nodes dropped only at forced breaks that carry a width", "text/linebreak.go", `(?s)(\t\tif item\.Type == PenaltyType && item\.Penalty <= -Infinity) (\{\n\t\t\t// no line spans a forced break)`, "${1} && item.Width != 0.0 ${2}", "E4.forced-break-forgets"},
 		{"unstretchable line tested on the running stretch sum", "text/linebreak.go", `if lb\.Y-active\.Y == 0\.0 \{`, "if lb.Y == 0.0 {", "E4.zero-guard-is-divisor"},
 		{"overflow breakpoint takes the running totals", "text/linebreak.go", `(\t\t\t\t\t\t\tWidth:    width,\n)\t\t\t\t\t\t\tW:        W,\n\t\t\t\t\t\t\tY:        Y,\n\t\t\t\t\t\t\tZ:        Z,\n(\t\t\t\t\t\t\tRatio:    0\.0,)`, "${1}\t\t\t\t\t\t\tW:        lb.W,\n\t\t\t\t\t\t\tY:        lb.Y + 0*Y + 0*W,\n\t\t\t\t\t\t\tZ:        lb.Z + 0*Z,\n${2}", "E11.break-sums"},
-		{"forced break deactivates feasible nodes only", "text/linebreak.go", `\t\t\tif ratio < -1\.0 \|\| item\.Type == PenaltyType && item\.Penalty <= -Infinity \{\n\t\t\t\tlb\.activeNodes\.Remove\(active\)\n\t\t\t\tlb\.inactiveNodes\.Push\(active\)\n\t\t\t\}\n`, "\t\t\tif ratio < -1.0 || ratio <= tolerance && item.Type == PenaltyType && item.Penalty <= -Infinity {\n\t\t\t\tlb.activeNodes.Remove(active)\n\t\t\t\tlb.inactiveNodes.Push(active)\n\t\t\t}\n", "E4.forced-break-deactivates"},
+		{"forced break deactivates feasible nodes only", "text/linebreak.go", `\t\t\tif tooLong \|\| item\.Type == PenaltyType && item\.Penalty <= -Infinity \{\n\t\t\t\tlb\.activeNodes\.Remove\(active\)\n\t\t\t\tlb\.inactiveNodes\.Push\(active\)\n\t\t\t\}\n`, "\t\t\tif tooLong || ratio <= tolerance && item.Type == PenaltyType && item.Penalty <= -Infinity {\n\t\t\t\tlb.activeNodes.Remove(active)\n\t\t\t\tlb.inactiveNodes.Push(active)\n\t\t\t}\n", "E4.forced-break-deactivates"},
 		{"break list sized before looseness picks the node", "text/linebreak.go", `(?s)\tif looseness != 0 \{\n\t\ts := 0\n\t\tk := b\.Line\n(.*?)breaks := make\(\[\]\*Breakpoint, b\.Line\+1\)`, "\tk := b.Line\n\tif looseness != 0 {\n\t\ts := 0\n${1}breaks := make([]*Breakpoint, k+1)", "E4.alloc-covers-index"},
 		{"break list one entry short", "text/linebreak.go", `breaks := make\(\[\]\*Breakpoint, b\.Line\+1\)`, "breaks := make([]*Breakpoint, b.Line)", "E4.alloc-covers-index"},
 		{"Linebreak looks at items[b-1] unguarded", "text/linebreak.go", `if 0 < b && lb\.items\[b-1\]\.Type == BoxType`, `if lb.items[b-1].Type == BoxType`, "E4.neighbour-guard"},
